@@ -234,6 +234,9 @@ Section States.
      list_path (SB.m_url sm)).
   Proof. intros [-> | ->]; reflexivity. Qed.
 
+  (* lia in a small context (many boolean hypotheses make it very slow) *)
+  Ltac zl_ A B C D := clear - A B C D; lia.
+
   Theorem sim_host : sim_for (fun st => st = HostSt \/ st = HostnameSt).
   Proof.
     intros mm sm Hst0 [Hs Hp He Hlo Hhi Hfl Hb].
@@ -257,9 +260,9 @@ Section States.
         cbn [out_rel].
         constructor; unfold mk; cbn [m_state m_ptr m_eof m_buf m_at m_br m_pw m_url st_map st_rel].
         - destruct sm; reflexivity.
-        - destruct sm; cbn [SB.m_pointer SB.set_state SB.decrease_pointer SB.set_pointer] in *. lia.
-        - lia.
-        - rewrite points_to_eof_spec. lia.
+        - destruct sm; cbn [SB.m_pointer SB.set_state SB.decrease_pointer SB.set_pointer] in *. zl_ Hlo Hhi Hp H3.
+        - zl_ Hlo Hhi Hp H3.
+        - rewrite points_to_eof_spec. zl_ Hlo Hhi Hp H3.
         - destruct sm; exact (conj Hat (conj Hbr Hpw)).
         - destruct sm; exact (conj Hbuf (conj Hsc (conj HR Hlp))).
         - discriminate. }
@@ -290,8 +293,8 @@ Section States.
           constructor; unfold mk; cbn [m_state m_ptr m_eof m_buf m_at m_br m_pw m_url st_map st_rel].
           + destruct sm; reflexivity.
           + destruct sm; exact Hp.
-          + lia.
-          + rewrite points_to_eof_spec. lia.
+          + zl_ Hlo Hhi Hp H3.
+          + rewrite points_to_eof_spec. zl_ Hlo Hhi Hp H3.
           + destruct sm; exact (conj Hat (conj Hbr Hpw)).
           + destruct sm as [su sst sbuf sa sbr spw sp].
             cbn [SB.m_url SB.m_buffer SB.set_url SB.set_buffer SB.set_state] in *.
@@ -342,9 +345,9 @@ Section States.
           + cbn [out_rel].
             constructor; unfold mk; cbn [m_state m_ptr m_eof m_buf m_at m_br m_pw m_url st_map st_rel].
             * destruct sm; reflexivity.
-            * destruct sm; cbn [SB.m_pointer SB.set_state SB.decrease_pointer SB.set_pointer SB.set_url SB.set_buffer] in *. lia.
-            * lia.
-            * rewrite points_to_eof_spec. lia.
+            * destruct sm; cbn [SB.m_pointer SB.set_state SB.decrease_pointer SB.set_pointer SB.set_url SB.set_buffer] in *. zl_ Hlo Hhi Hp H3.
+            * zl_ Hlo Hhi Hp H3.
+            * rewrite points_to_eof_spec. zl_ Hlo Hhi Hp H3.
             * destruct sm; exact (conj Hat (conj Hbr Hpw)).
             * destruct sm as [su sst sbuf sa sbr spw sp].
               cbn [SB.m_url SB.m_buffer SB.set_url SB.set_buffer SB.set_state SB.decrease_pointer SB.set_pointer] in *.
@@ -374,8 +377,8 @@ Section States.
         constructor; unfold mk; cbn [m_state m_ptr m_eof m_buf m_at m_br m_pw m_url].
         - exact Hs.
         - exact Hp.
-        - lia.
-        - rewrite points_to_eof_spec. lia.
+        - zl_ Hlo Hhi Hp H3.
+        - rewrite points_to_eof_spec. clear - Hlo Hhi H3 Eeof. lia.
         - exact (conj Hat (conj eq_refl Hpw)).
         - apply (st_rel_host _ _ _ _ _ _ Hst0).
           cbn [SB.m_url SB.m_buffer SB.append_to_buffer SB.set_buffer].
@@ -384,14 +387,281 @@ Section States.
           + split; [exact HR|exact Hlp].
         - discriminate. }
       destruct (r =? 91) eqn:E91; destruct (r =? 93) eqn:E93.
-      - exfalso. lia.
+      - exfalso. clear - E91 E93. lia.
       - apply G; destruct sm; reflexivity.
       - apply G; destruct sm; reflexivity.
       - apply G; try reflexivity. symmetry. exact Hbr. }
     destruct (n_inp inp <=? p)%Z eqn:En.
-    - unfold input. rewrite here_eof by lia. cbn [SB.c_of hd_error]. apply core. apply reads_eof. lia.
-    - unfold input. rewrite (here_cons inp p) by lia. cbn [SB.c_of hd_error]. apply core. apply reads_cp; lia.
+    - unfold input. rewrite here_eof by (clear - En; lia). cbn [SB.c_of hd_error]. apply core. apply reads_eof. clear - En; lia.
+    - unfold input. rewrite (here_cons inp p) by (clear - En Hlo; lia). cbn [SB.c_of hd_error]. apply core.
+      apply reads_cp; clear - En Hlo; lia.
+  Qed.
+
+  (* ---------------------------------------------------------------- *)
+  (* file host state                                                   *)
+  (* ---------------------------------------------------------------- *)
+  Theorem sim_file_host : sim_for (fun st => st = FileHost).
+  Proof.
+    intros mm sm Hst [Hs Hp He Hlo Hhi Hfl Hb].
+    rewrite Hst in Hs, Hb. cbn [st_map] in Hs. cbn [st_rel] in Hb. destruct Hb as [Hbuf [Hsc [HR Hlp]]].
+    unfold mstep, sstep, step, SB.step. rewrite Hst, <- Hs. cbv beta iota zeta. rewrite He, Hp.
+    set (p := (m_ptr mm + 1)%Z).
+    assert (core : forall eof r cc, reads p eof r cc ->
+      out_rel inp (is_some override) sbase
+        (if eof || (r =? 47) || (r =? 92) || (r =? 63) || (r =? 35)
+         then
+           if negb (overridden override) && isWindowsDriveLetter (m_buf mm)
+           then mherr c (m_url mm) FileInvalidWindowsDriveLetterHost false
+                  (fun u' => Cont (mk PathSt (p - 1)%Z false (m_buf mm) (m_at mm) (m_br mm) (m_pw mm) u'))
+           else if is_nil (m_buf mm)
+             then if overridden override then RetNilNil (set_host (m_url mm) (Some []))
+                  else Cont (mk PathStart (p - 1)%Z false (m_buf mm) (m_at mm) (m_br mm) (m_pw mm)
+                               (set_host (m_url mm) (Some [])))
+             else match parseHost idna_raw c (m_url mm) (m_buf mm) (negb (IsSpecialScheme c (m_url mm))) with
+                  | Ok u host =>
+                      if overridden override
+                      then RetUrl (set_host u (Some (if str_eqb host s_localhost then [] else host)))
+                      else Cont (mk PathStart (p - 1)%Z false [] (m_at mm) (m_br mm) (m_pw mm)
+                                   (set_host u (Some (if str_eqb host s_localhost then [] else host))))
+                  | Er u e => RetErr u e
+                  end
+         else Cont (mk FileHost p eof (m_buf mm ++ utf8_enc r) (m_at mm) (m_br mm) (m_pw mm) (m_url mm)))
+        (SB.file_host_state (dta idna_raw c) (option_map st_map override) sm cc)).
+    { intros eof r cc [H1 [H2 [H3 H4]]].
+      unfold SB.file_host_state, SB.override_given, overridden. cbv zeta. rewrite is_some_map_h.
+      rewrite H2, (H1 47), (H1 92), (H1 63), (H1 35) by discriminate.
+      destruct (eof || (r =? 47) || (r =? 92) || (r =? 63) || (r =? 35)) eqn:ET.
+      { (* 1: the end of the host *)
+        replace (SB.m_buffer (SB.decrease_pointer sm 1)) with (SB.m_buffer sm) by (destruct sm; reflexivity).
+        rewrite Hbuf at 1. rewrite RP.windows_drive_letter_enc.
+        destruct (negb (is_some override) && SB.is_windows_drive_letter (SB.m_buffer sm)) eqn:E1.
+        { (* 1.1: a Windows drive letter; the buffer is kept for the path state *)
+          rewrite mherr_warn by exact Hfail. cbn [out_rel].
+          constructor; unfold mk; cbn [m_state m_ptr m_eof m_buf m_at m_br m_pw m_url st_map st_rel].
+          - destruct sm; reflexivity.
+          - destruct sm; cbn [SB.m_pointer SB.set_state SB.decrease_pointer SB.set_pointer] in *. zl_ Hlo Hhi Hp H3.
+          - zl_ Hlo Hhi Hp H3.
+          - rewrite points_to_eof_spec. zl_ Hlo Hhi Hp H3.
+          - destruct sm; exact Hfl.
+          - destruct sm. exact (conj Hbuf (conj Hsc (conj (R_noted c _ _ _ _ HR) Hlp))).
+          - discriminate. }
+        rewrite <- (is_nil_enc (SB.m_buffer sm)), <- Hbuf.
+        destruct (is_nil (m_buf mm)) eqn:En.
+        { (* 1.2: the empty host *)
+          assert (HR' : R (set_host (m_url mm) (Some [])) (SU.with_host (SB.m_url sm) (Some SU.HEmpty))).
+          { exact (R_set_host _ _ (Some SU.HEmpty) HR). }
+          assert (Esb : SB.m_buffer sm = []).
+          { apply is_nil_true. rewrite <- is_nil_enc, <- Hbuf. exact En. }
+          destruct (is_some override) eqn:Eov.
+          - cbn [out_rel]. split; [reflexivity|destruct sm; exact HR'].
+          - cbn [out_rel].
+            constructor; unfold mk; cbn [m_state m_ptr m_eof m_buf m_at m_br m_pw m_url st_map st_rel].
+            + destruct sm; reflexivity.
+            + destruct sm; cbn [SB.m_pointer SB.set_state SB.decrease_pointer SB.set_pointer SB.set_url] in *.
+              zl_ Hlo Hhi Hp H3.
+            + zl_ Hlo Hhi Hp H3.
+            + rewrite points_to_eof_spec. zl_ Hlo Hhi Hp H3.
+            + destruct sm; exact Hfl.
+            + destruct sm as [su sst sbuf sa sbr spw sp].
+              cbn [SB.m_url SB.m_buffer SB.set_url SB.set_buffer SB.set_state SB.decrease_pointer SB.set_pointer] in *.
+              split; [apply is_nil_true; exact En|]. split; [exact Esb|]. split; [exact HR'|exact Hlp].
+            + discriminate. }
+        (* 1.3: host parsing *)
+        assert (Hne : SB.m_buffer sm <> []).
+        { apply is_nil_false. rewrite <- is_nil_enc, <- Hbuf. exact En. }
+        pose proof (parseHost_buf idna_raw c Hstd Horacle (m_url mm) (SB.m_buffer sm)
+                      (negb (IsSpecialScheme c (m_url mm))) Hsc (fun _ => Hne)) as Hph.
+        rewrite <- Hbuf in Hph. rewrite (R_special c _ _ Hspecial HR) in Hph |- *.
+        replace (SB.m_url (SB.decrease_pointer sm 1)) with (SB.m_url sm) by (destruct sm; reflexivity).
+        destruct (parseHost idna_raw c (m_url mm) (m_buf mm) (negb (SU.url_is_special (SB.m_url sm))))
+          as [u' h|u' e].
+        - destruct Hph as (hs & v & Ehp & -> & ->). rewrite Ehp. rewrite localhost_spec.
+          assert (HR' : R (set_host (set_verrs (m_url mm) v)
+                             (Some (if SB.host_is_localhost hs then [] else host_bytes hs)))
+                          (SU.with_host (SB.m_url sm) (Some (if SB.host_is_localhost hs then SU.HEmpty else hs)))).
+          { destruct (SB.host_is_localhost hs).
+            - apply (R_set_host _ _ (Some SU.HEmpty)). apply R_set_verrs. exact HR.
+            - apply (R_set_host _ _ (Some hs)). apply R_set_verrs. exact HR. }
+          destruct (is_some override) eqn:Eov.
+          + cbn [out_rel]. exact HR'.
+          + cbn [out_rel].
+            constructor; unfold mk; cbn [m_state m_ptr m_eof m_buf m_at m_br m_pw m_url st_map st_rel].
+            * destruct sm; reflexivity.
+            * destruct sm; cbn [SB.m_pointer SB.set_state SB.decrease_pointer SB.set_pointer SB.set_url SB.set_buffer] in *.
+              zl_ Hlo Hhi Hp H3.
+            * zl_ Hlo Hhi Hp H3.
+            * rewrite points_to_eof_spec. zl_ Hlo Hhi Hp H3.
+            * destruct sm; exact Hfl.
+            * destruct sm as [su sst sbuf sa sbr spw sp].
+              cbn [SB.m_url SB.m_buffer SB.set_url SB.set_buffer SB.set_state SB.decrease_pointer SB.set_pointer] in *.
+              split; [reflexivity|]. split; [reflexivity|]. split; [exact HR'|exact Hlp].
+            * discriminate.
+        - destruct Hph as [Ehp [v ->]]. rewrite Ehp. cbn [out_rel]. apply R_set_verrs. exact HR. }
+      (* 2: one more code point *)
+      assert (Eeof : eof = false) by (destruct eof; [discriminate ET|reflexivity]).
+      destruct (H4 Eeof) as [-> Hr]. rewrite Eeof. cbn [out_rel].
+      constructor; unfold mk; cbn [m_state m_ptr m_eof m_buf m_at m_br m_pw m_url st_map st_rel].
+      - destruct sm; exact Hs.
+      - destruct sm; exact Hp.
+      - zl_ Hlo Hhi Hp H3.
+      - rewrite points_to_eof_spec. clear - Hlo Hhi H3 Eeof. lia.
+      - destruct sm; exact Hfl.
+      - destruct sm as [su sst sbuf sa sbr spw sp].
+        cbn [SB.m_url SB.m_buffer SB.append_to_buffer SB.set_buffer] in *.
+        split; [rewrite Hbuf; apply enc_snoc|]. split.
+        + apply Forall_app. split; [exact Hsc|]. constructor; [exact Hr|constructor].
+        + split; [exact HR|exact Hlp].
+      - discriminate. }
+    destruct (n_inp inp <=? p)%Z eqn:En.
+    - unfold input. rewrite here_eof by (clear - En; lia). cbn [SB.c_of hd_error]. apply core. apply reads_eof.
+      clear - En; lia.
+    - unfold input. rewrite (here_cons inp p) by (clear - En Hlo; lia). cbn [SB.c_of hd_error]. apply core.
+      apply reads_cp; clear - En Hlo; lia.
   Qed.
 End States.
 
 Print Assumptions sim_host.
+Print Assumptions sim_file_host.
+
+(* ================================================================== *)
+(* the premises hold of concrete values                                 *)
+(* ================================================================== *)
+(* an oracle that lower-cases ASCII domains and rejects everything else *)
+Definition ascii_idna (s : str) : str * bool :=
+  if forallb (fun b => b <? 128) s then (str_lower s, false) else ([], false).
+
+Lemma ascii_lower_lt128 b : b < 128 -> ascii_lower b < 128.
+Proof. intros H. unfold ascii_lower, is_upper. destruct ((65 <=? b) && (b <=? 90)) eqn:E; lia. Qed.
+
+Lemma encode_not_ascii l : In 65533 l -> forallb (fun b => b <? 128) (utf8_encode l) = false.
+Proof.
+  unfold utf8_encode. induction l as [|x l IH]; intros H; [contradiction|].
+  cbn [flat_map]. rewrite forallb_app. destruct H as [->|H].
+  - reflexivity.
+  - rewrite (IH H). apply andb_false_r.
+Qed.
+
+Example oracle_ok_ex : oracle_ok ascii_idna default_cfg.
+Proof.
+  split.
+  - intros d a Hne _ H. destruct d as [|b d']; [congruence|].
+    unfold ToASCII in H. replace (c_latin1 default_cfg) with false in H by reflexivity.
+    replace (c_lax default_cfg) with false in H by reflexivity.
+    unfold ascii_idna in H. destruct (forallb (fun b0 => b0 <? 128) (b :: d')) eqn:Ea.
+    + cbn [andb str_lower map is_nil] in H. injection H as <-. split; [discriminate|].
+      rewrite forallb_forall in Ea. apply Forall_forall. intros y Hy.
+      change (ascii_lower b :: map ascii_lower d') with (map ascii_lower (b :: d')) in Hy.
+      apply in_map_iff in Hy. destruct Hy as [x [<- Hx]]. apply ascii_lower_lt128.
+      specialize (Ea x Hx). lia.
+    + cbn [andb is_nil] in H. discriminate H.
+  - intros l Hl. pose proof (encode_not_ascii l Hl) as E.
+    unfold ToASCII. destruct (utf8_encode l) as [|b s] eqn:Eu; [discriminate E|].
+    replace (c_latin1 default_cfg) with false by reflexivity.
+    unfold ascii_idna. rewrite E. reflexivity.
+Qed.
+
+(* "[::1]:" followed by an invalid byte *)
+Definition ex_inp : list rune := [Good 91; Good 58; Good 58; Good 49; Good 93; Good 58; Good 233; Bad 255].
+
+Example sim_premises_ex :
+  std_cfg default_cfg /\ oracle_ok ascii_idna default_cfg /\ Forall scalar (map rv ex_inp).
+Proof.
+  split; [exact std_cfg_default|]. split; [exact oracle_ok_ex|].
+  unfold ex_inp. cbn [map rv].
+  repeat (apply Forall_cons; [split; [unfold rune_error; lia|reflexivity]|]). apply Forall_nil.
+Qed.
+
+(* the host parser on machine buffers, model and standard side by side: a domain, an IPv4 address in
+   hexadecimal, a non-ASCII domain (rejected by this oracle), an opaque host with a non-ASCII code point *)
+Example parseHost_buf_ex :
+  val (parseHost ascii_idna default_cfg (empty_url []) (encode_runes [69; 120; 46; 67; 111; 109]) false)
+    = Some [101; 120; 46; 99; 111; 109] /\
+  option_map host_bytes (SH.host_parse (dta ascii_idna default_cfg) [69; 120; 46; 67; 111; 109] false)
+    = Some [101; 120; 46; 99; 111; 109] /\
+  val (parseHost ascii_idna default_cfg (empty_url []) (encode_runes [48; 120; 55; 102; 46; 49]) false)
+    = Some [49; 50; 55; 46; 48; 46; 48; 46; 49] /\
+  option_map host_bytes (SH.host_parse (dta ascii_idna default_cfg) [48; 120; 55; 102; 46; 49] false)
+    = Some [49; 50; 55; 46; 48; 46; 48; 46; 49] /\
+  val (parseHost ascii_idna default_cfg (empty_url []) (encode_runes [233; 46; 99]) false) = None /\
+  SH.host_parse (dta ascii_idna default_cfg) [233; 46; 99] false = None /\
+  val (parseHost ascii_idna default_cfg (empty_url []) (encode_runes [233; 46; 99]) true)
+    = Some [37; 67; 51; 37; 65; 57; 46; 99] /\
+  option_map host_bytes (SH.host_parse (dta ascii_idna default_cfg) [233; 46; 99] true)
+    = Some [37; 67; 51; 37; 65; 57; 46; 99].
+Proof. vm_compute. repeat split; reflexivity. Qed.
+
+(* "localhost" is recognised on the bytes as on the host *)
+Example localhost_ex :
+  str_eqb (host_bytes (SU.HDomain SB.s_localhost)) s_localhost = true /\
+  SB.host_is_localhost (SU.HDomain SB.s_localhost) = true /\
+  str_eqb (host_bytes (SU.HIPv4 2130706433)) s_localhost = false /\
+  SB.host_is_localhost (SU.HIPv4 2130706433) = false.
+Proof. vm_compute. repeat split; reflexivity. Qed.
+
+Print Assumptions oracle_ok_ex.
+
+(* a related pair of configurations in the host state, and in the file host state: "http://ex:8" with the
+   pointers at the second colon; "file://C:/" with the pointers at the last solidus (a drive-letter "host") *)
+Definition ex_inp_http : list rune := map Good [104; 116; 116; 112; 58; 47; 47; 101; 120; 58; 56].
+Definition ex_mm_host : mstate :=
+  mk HostSt 8 false [101; 120] false false false
+     (Build_url [] [104; 116; 116; 112] [] [] None None 0 [] false None None [] None).
+Definition ex_sm_host : SB.machine :=
+  SB.mkM (SU.mkSUrl [104; 116; 116; 112] [] [] None None (SU.PList []) None None)
+         SB.HostState [101; 120] false false false 9.
+
+Definition ex_inp_file : list rune := map Good [102; 105; 108; 101; 58; 47; 47; 67; 58; 47].
+Definition ex_mm_file : mstate :=
+  mk FileHost 8 false [67; 58] false false false
+     (Build_url [] [102; 105; 108; 101] [] [] (Some []) None 0 [] false None None [] None).
+Definition ex_sm_file : SB.machine :=
+  SB.mkM (SU.mkSUrl [102; 105; 108; 101] [] [] (Some SU.HEmpty) None (SU.PList []) None None)
+         SB.FileHostState [67; 58] false false false 9.
+
+Ltac scalar_list := repeat (apply Forall_cons; [split; [lia|reflexivity]|]); apply Forall_nil.
+
+Example sim_host_ex :
+  m_state ex_mm_host = HostSt /\ Forall scalar (map rv ex_inp_http) /\
+  Rel_before ex_inp_http false None ex_mm_host ex_sm_host /\
+  mstep ascii_idna default_cfg ex_inp_http None None ex_mm_host =
+    Cont (mk PortSt 9 false [] false false false
+            (Build_url [] [104; 116; 116; 112] [] [] (Some [101; 120]) None 0 [] false None None [] None)) /\
+  sstep ascii_idna default_cfg ex_inp_http None None ex_sm_host =
+    SB.SCont (SB.mkM (SU.mkSUrl [104; 116; 116; 112] [] [] (Some (SU.HDomain [101; 120])) None (SU.PList []) None None)
+                     SB.PortState [] false false false 9).
+Proof.
+  split; [reflexivity|]. split; [cbv [ex_inp_http map rv]; scalar_list|]. split.
+  - constructor; cbn [ex_mm_host ex_sm_host mk m_state m_ptr m_eof m_buf m_url SB.m_state SB.m_pointer].
+    + reflexivity.
+    + reflexivity.
+    + reflexivity.
+    + lia.
+    + vm_compute. reflexivity.
+    + repeat split.
+    + cbn [st_rel SB.m_buffer SB.m_url]. split; [reflexivity|]. split; [scalar_list|].
+      split; [constructor; reflexivity || (split; reflexivity)|reflexivity].
+  - split; vm_compute; reflexivity.
+Qed.
+
+Example sim_file_host_ex :
+  m_state ex_mm_file = FileHost /\ Forall scalar (map rv ex_inp_file) /\
+  Rel_before ex_inp_file false None ex_mm_file ex_sm_file /\
+  mstep ascii_idna default_cfg ex_inp_file None None ex_mm_file =
+    Cont (mk PathSt 8 false [67; 58] false false false
+            (Build_url [] [102; 105; 108; 101] [] [] (Some []) None 0 [] false None None [] None)) /\
+  sstep ascii_idna default_cfg ex_inp_file None None ex_sm_file =
+    SB.SCont (SB.mkM (SU.mkSUrl [102; 105; 108; 101] [] [] (Some SU.HEmpty) None (SU.PList []) None None)
+                     SB.PathState [67; 58] false false false 8).
+Proof.
+  split; [reflexivity|]. split; [cbv [ex_inp_file map rv]; scalar_list|]. split.
+  - constructor; cbn [ex_mm_file ex_sm_file mk m_state m_ptr m_eof m_buf m_url SB.m_state SB.m_pointer].
+    + reflexivity.
+    + reflexivity.
+    + reflexivity.
+    + lia.
+    + vm_compute. reflexivity.
+    + repeat split.
+    + cbn [st_rel SB.m_buffer SB.m_url]. split; [reflexivity|]. split; [scalar_list|].
+      split; [constructor; reflexivity || (split; reflexivity)|reflexivity].
+  - split; vm_compute; reflexivity.
+Qed.
